@@ -2,6 +2,7 @@
 use crate::report::Ctx;
 use crate::rng::Rng;
 
+pub mod determinism;
 pub mod dispatch;
 pub mod hist;
 pub mod mass;
@@ -148,6 +149,9 @@ pub fn spec(id: &str) -> Option<Spec> {
         "C05" => Spec { id: "C05", run: dispatch::run_dispatch_case, cases_quick: 480, cases_thorough: 20000,
             rule: "same instances as C04 (own seed stream): Ok => one route per train, starts on an origin at/after departure, ends on a destination, contiguous, non-decreasing finite times, every leg between consecutive dispatch nodes >= the train's own free-running duration (EstTimeNet.time_to_next), returned path == arrive events of the final dispatch path; Err => names the stuck trains or another explicit cause; panic/abort => violation (also in the debug-assertions build av-chk, where get_unchecked carries its bounds precondition); outer iterations <= 200 x dispatch nodes (bounded progress). Non-trivial = dispatch with >=1 rewind or a delayed leg; distinct as C04",
             assumptions: DISP_ASSUME },
+        "C18" => Spec { id: "C18", run: determinism::run_c18, cases_quick: 480, cases_thorough: 16000,
+            rule: "three quarters of the cases run every result-producing pipeline (locomotive / consist / set-speed / speed-limited simulation incl. the builder, make_est_times, run_dispatch) twice in one process and export an output digest per (case, pipeline); the driver repeats the whole run in several FRESH processes (std hash-map seeds differ per process) and compares all digests byte for byte. One quarter builds a LocomotiveSimulationVec of 2..64 heterogeneous simulations (40 % with 1..3 elements made to fail at a chosen step), walks it serially and in parallel under rayon pools of 1,2,3,4,6,8,12,16 threads x 2 repetitions and compares every element with its own serial walk (or untouched input when the batch failed) and the error with the failing indices. Non-trivial = every case (comparison across processes or pool sizes); distinct = case id",
+            assumptions: &["distinct work-stealing interleavings cannot be enumerated or counted for rayon: (pool size x repetition) pairs are reported instead; TSan and Miri runs of the batch walk are separate engines (thorough tier)"] },
         _ => return None,
     })
 }
